@@ -183,9 +183,25 @@ struct TypeCheckVisitor<'a> {
 impl TypeCheckVisitor<'_> {
     fn visit_toplevel_item(&mut self, item: &ToplevelItem) {
         match &item {
-            ToplevelItem::Fun(_, fun_info, _) => self.visit_fun_info(fun_info),
-            ToplevelItem::Method(method_info, _) => self.visit_method_info(method_info),
-            ToplevelItem::Test(test_info) => self.visit_test_info(test_info),
+            ToplevelItem::Fun(_, _, _) | ToplevelItem::Method(_, _) | ToplevelItem::Test(_) => {
+                // Definitions run in their own stack frame, so they
+                // can't see variables bound by toplevel expressions.
+                let toplevel_bindings = std::mem::replace(
+                    &mut self.bindings,
+                    LocalBindings {
+                        blocks: vec![FxHashMap::default()],
+                    },
+                );
+
+                match &item {
+                    ToplevelItem::Fun(_, fun_info, _) => self.visit_fun_info(fun_info),
+                    ToplevelItem::Method(method_info, _) => self.visit_method_info(method_info),
+                    ToplevelItem::Test(test_info) => self.visit_test_info(test_info),
+                    _ => unreachable!(),
+                }
+
+                self.bindings = toplevel_bindings;
+            }
             ToplevelItem::Enum(enum_info) => self.visit_enum_info(enum_info),
             ToplevelItem::Struct(struct_info) => self.visit_struct_info(struct_info),
             ToplevelItem::Import(info) => {
